@@ -205,6 +205,9 @@ pub struct ItemSpec {
     /// alphabetical order and 2 is)
     #[serde(default)]
     pub names: u8,
+    /// constant added by the upgrade code (`{value} / up + offset`): a declared code is applied as it stands, to 0 as well
+    #[serde(default)]
+    pub offset: u8,
 }
 
 fn alias(unit: &str) -> String {
@@ -274,7 +277,7 @@ fn register_item(calc: &mut SmartCalc, it: &ItemSpec) -> Result<bool, String> {
     let format = format!("{{value}} {}", unit);
     let names = it.all_names();
     let parse: Vec<String> = names.iter().map(|n| format!("{{NUMBER:value}} {{TEXT:type:{}}}", n)).collect();
-    let up = format!("{{value}} / {}", it.up.max(2));
+    let up = if it.offset == 0 { format!("{{value}} / {}", it.up.max(2)) } else { format!("{{value}} / {} + {}", it.up.max(2), it.offset) };
     let down = format!("{{value}} * {}", it.down.max(2));
     guarded(|| calc.add_dynamic_type_item(fam.to_string(), it.index as usize, format, parse, up, down, names, None, None, None)).map_err(|p| format!("add_dynamic_type_item panicked at {}: {}", p.site, p.message))
 }
@@ -569,7 +572,7 @@ impl Prop for Registry {
                 }
                 Op::AddItem(it) => {
                     let fam = FAMILY_NAMES[it.family as usize % FAMILY_NAMES.len()];
-                    rendered.push_str(&format!("add_dynamic_type_item({}, {}, {:?}, up /{}, down *{}); ", fam, it.index, it.all_names(), it.up.max(2), it.down.max(2)));
+                    rendered.push_str(&format!("add_dynamic_type_item({}, {}, {:?}, up /{}{}, down *{}); ", fam, it.index, it.all_names(), it.up.max(2), if it.offset > 0 { format!(" +{}", it.offset) } else { String::new() }, it.down.max(2)));
                     // a unit name is used by one item only (fresh names are the author's obligation)
                     if m.items.iter().any(|x| x.unit % UNIT_NAMES.len() as u8 == it.unit % UNIT_NAMES.len() as u8) {
                         continue;
@@ -662,7 +665,7 @@ impl Prop for Registry {
                     let mut exp = *amount as f64;
                     if a < b {
                         for x in &chain[a..b] {
-                            exp /= x.up.max(2) as f64;
+                            exp = exp / x.up.max(2) as f64 + x.offset as f64;
                         }
                     } else {
                         for x in chain[b + 1..=a].iter().rev() {
@@ -758,9 +761,9 @@ pub fn op_strategy() -> impl Strategy<Value = Op> {
         5 => (prop_oneof![6 => Just(0u8), 2 => Just(1u8), 1 => Just(2u8)], rule_strategy()).prop_map(|(l, r)| Op::AddRule(l, r)),
         3 => (prop_oneof![6 => Just(0u8), 2 => Just(1u8), 1 => Just(2u8)], prop_oneof![4 => 0u8..4, 1 => 4u8..12]).prop_map(|(l, n)| Op::DeleteRule(l, n)),
         2 => (0u8..3).prop_map(Op::AddType),
-        4 => (0u8..3, 0u8..=5, 0u8..10, 2u8..=12, 2u8..=12, prop_oneof![2 => Just(0u8), 1 => Just(1u8), 1 => Just(2u8)]).prop_map(|(family, index, unit, down, up, names)| Op::AddItem(ItemSpec { family, index, unit, down, up, names })),
+        4 => (0u8..3, 0u8..=5, 0u8..10, 2u8..=12, 2u8..=12, prop_oneof![2 => Just(0u8), 1 => Just(1u8), 1 => Just(2u8)]).prop_map(|(family, index, unit, down, up, names)| Op::AddItem(ItemSpec { family, index, unit, down, up, names, offset: if (down + up) % 4 == 0 { 32 } else { 0 } })),
         6 => (any::<u8>(), 0u32..40, 0u32..40).prop_map(|(i, n, k)| Op::Probe(i, n, k)),
-        3 => (0u8..3, any::<u8>(), any::<u8>(), 1u32..1000).prop_map(|(f, i, j, a)| Op::ConvertProbe(f, i, j, a)),
+        3 => (0u8..3, any::<u8>(), any::<u8>(), prop_oneof![1 => Just(0u32), 6 => 1u32..1000]).prop_map(|(f, i, j, a)| Op::ConvertProbe(f, i, j, a)),
         1 => (0u8..2).prop_map(Op::ResetDateRule),
     ]
 }
@@ -799,7 +802,7 @@ fn rule_block() -> impl Strategy<Value = Vec<Op>> {
 /// index thrown in, conversions in both directions
 fn family_block() -> impl Strategy<Value = Vec<Op>> {
     let unit_rule = prop::option::weighted(0.5, (0u8..8, 0u8..3, 0usize..5, 0u8..50, any::<bool>(), prop::bool::weighted(0.8), 0u8..4));
-    (0u8..3, any::<bool>(), 2usize..=5, prop::collection::vec((2u8..=12, 2u8..=12, prop_oneof![2 => Just(0u8), 1 => Just(1u8), 1 => Just(2u8)]), 5), 0u8..10, prop::option::of((1u8..=5, 0u8..10)), prop::collection::vec((any::<u8>(), any::<u8>(), 1u32..1000), 1..=4), prop_oneof![3 => Just(1u8), 2 => Just(0u8), 1 => Just(3u8)], unit_rule).prop_map(|(family, twice, m, factors, unit0, dup, convs, base, unit_rule)| {
+    (0u8..3, any::<bool>(), 2usize..=5, prop::collection::vec((2u8..=12, 2u8..=12, prop_oneof![2 => Just(0u8), 1 => Just(1u8), 1 => Just(2u8)]), 5), 0u8..10, prop::option::of((1u8..=5, 0u8..10)), prop::collection::vec((any::<u8>(), any::<u8>(), prop_oneof![1 => Just(0u32), 6 => 1u32..1000]), 1..=4), prop_oneof![3 => Just(1u8), 2 => Just(0u8), 1 => Just(3u8)], unit_rule).prop_map(|(family, twice, m, factors, unit0, dup, convs, base, unit_rule)| {
         // a rule over quantities of this family, registered before the family exists or after its items
         let rule = unit_rule.map(|(kw, layout, item, c, before, filtered, name)| {
             let spec = RuleSpec { name, patterns: vec![Pattern { kw, layout, n: Field::Unit(if filtered { Some(family) } else { None }, (unit0 + (item % m) as u8) % 10), kw2: (kw + 1) % 8, kcase: 0 }], behaviour: Behaviour::Number(c) };
@@ -814,10 +817,10 @@ fn family_block() -> impl Strategy<Value = Vec<Op>> {
             ops.push(Op::AddType(family));
         }
         for i in 0..m {
-            ops.push(Op::AddItem(ItemSpec { family, index: i as u8 + base, unit: (unit0 + i as u8) % 10, down: factors[i].0, up: factors[i].1, names: factors[i].2 }));
+            ops.push(Op::AddItem(ItemSpec { family, index: i as u8 + base, unit: (unit0 + i as u8) % 10, down: factors[i].0, up: factors[i].1, names: factors[i].2, offset: if (factors[i].0 + factors[i].1) % 4 == 0 { 32 } else { 0 } }));
             if let Some((di, du)) = dup {
                 if di as usize == i + 1 {
-                    ops.push(Op::AddItem(ItemSpec { family, index: i as u8 + base, unit: (unit0 + 5 + du) % 10, down: 9, up: 9, names: 0 }));
+                    ops.push(Op::AddItem(ItemSpec { family, index: i as u8 + base, unit: (unit0 + 5 + du) % 10, down: 9, up: 9, names: 0, offset: 0 }));
                 }
             }
         }
@@ -855,9 +858,9 @@ pub fn regressions() -> Vec<History> {
         // unknown language (F04)
         History { ops: vec![Op::AddRule(2, RuleSpec { name: 0, patterns: vec![p(0, 0)], behaviour: Behaviour::Number(5) }), Op::DeleteRule(2, 0)] },
         // a rule over quantities of a user family, registered before the family
-        History { ops: vec![Op::AddRule(0, RuleSpec { name: 0, patterns: vec![Pattern { kw: 0, layout: 0, n: Field::Unit(Some(0), 0), kw2: 1, kcase: 0 }], behaviour: Behaviour::Number(5) }), Op::AddType(0), Op::AddItem(ItemSpec { family: 0, index: 1, unit: 0, down: 2, up: 3, names: 1 }), Op::AddItem(ItemSpec { family: 0, index: 2, unit: 1, down: 2, up: 3, names: 2 }), Op::Probe(0, 6, 0), Op::ConvertProbe(0, 0, 1, 24), Op::ConvertProbe(0, 1, 0, 5), Op::ConvertProbe(0, 0, 1, 9), Op::ConvertProbe(0, 1, 0, 10)] },
+        History { ops: vec![Op::AddRule(0, RuleSpec { name: 0, patterns: vec![Pattern { kw: 0, layout: 0, n: Field::Unit(Some(0), 0), kw2: 1, kcase: 0 }], behaviour: Behaviour::Number(5) }), Op::AddType(0), Op::AddItem(ItemSpec { family: 0, index: 1, unit: 0, down: 2, up: 3, names: 1, offset: 0 }), Op::AddItem(ItemSpec { family: 0, index: 2, unit: 1, down: 2, up: 3, names: 2, offset: 0 }), Op::Probe(0, 6, 0), Op::ConvertProbe(0, 0, 1, 24), Op::ConvertProbe(0, 1, 0, 5), Op::ConvertProbe(0, 0, 1, 9), Op::ConvertProbe(0, 1, 0, 10)] },
         // a user family, duplicates rejected, conversion both ways
-        History { ops: vec![Op::AddType(0), Op::AddType(0), Op::AddItem(ItemSpec { family: 0, index: 1, unit: 0, down: 2, up: 3, names: 0 }), Op::AddItem(ItemSpec { family: 0, index: 2, unit: 1, down: 3, up: 4, names: 0 }), Op::AddItem(ItemSpec { family: 0, index: 2, unit: 2, down: 9, up: 9, names: 0 }), Op::AddItem(ItemSpec { family: 0, index: 3, unit: 3, down: 4, up: 5, names: 0 }), Op::AddItem(ItemSpec { family: 1, index: 1, unit: 4, down: 2, up: 2, names: 0 }), Op::ConvertProbe(0, 0, 2, 24), Op::ConvertProbe(0, 2, 0, 2), Op::ConvertProbe(0, 1, 0, 5)] },
+        History { ops: vec![Op::AddType(0), Op::AddType(0), Op::AddItem(ItemSpec { family: 0, index: 1, unit: 0, down: 2, up: 3, names: 0, offset: 0 }), Op::AddItem(ItemSpec { family: 0, index: 2, unit: 1, down: 3, up: 4, names: 0, offset: 0 }), Op::AddItem(ItemSpec { family: 0, index: 2, unit: 2, down: 9, up: 9, names: 0, offset: 0 }), Op::AddItem(ItemSpec { family: 0, index: 3, unit: 3, down: 4, up: 5, names: 0, offset: 0 }), Op::AddItem(ItemSpec { family: 1, index: 1, unit: 4, down: 2, up: 2, names: 0, offset: 0 }), Op::ConvertProbe(0, 0, 2, 24), Op::ConvertProbe(0, 2, 0, 2), Op::ConvertProbe(0, 1, 0, 5)] },
     ]
 }
 
@@ -1194,7 +1197,7 @@ pub fn self_check() {
 
 pub fn run(ctx: &Ctx) {
     self_check();
-    ctx.rule("call histories of 1-14 operations on one calculator: add_rule(en|tr|unknown language, 1-3 patterns of fresh keywords - or no keyword at all for rules that always decline, or an operator word of the rule's own language (times/minus, kere/eksi) - and typed fields {NUMBER:n} {PERCENT:n} {MONEY:n} {TEXT:n} {NUMBER:k} or a quantity of a user family {DYNAMIC_TYPE:n[:family]} (the rule registered before the family exists or after its items), behaviour computed from the NAMED fields: decline always / decline when n is odd / Number(c+2n+3k) / Money / Percent / Duration), delete_rule (existing, never registered - also the function names of built-in rules such as convert_money -, already deleted, unknown language; names from a pool of four so that duplicates occur), add_dynamic_type, add_dynamic_type_item (fresh / duplicate index / unknown family, integer link factors; families whose lowest index is 0, 1 or 3; units with one name or two names in either order, lines written with either), set_date_rule with the patterns a language already has (changes nothing), probe evaluations of registered and deleted patterns, family conversions; oracle: return values against a model (add_rule false iff unknown language, delete_rule true iff a live rule of that name exists, removing the first; add_dynamic_type false iff the name exists; add_dynamic_type_item false iff the family is unknown or the index taken); effect: a line matched by exactly one live rule evaluates to what its behaviour computes, a declining rule or no rule leaves the line as on a plain calculator; conversions = product of the declared link factors; and after every deletion and at the end: the built-in sentences (arithmetic, money, percent, units, dates, durations incl. several parts and 'as', zones, bases) evaluate as on a plain calculator unless an operator-word rule is live, and every live pattern is probed for its effect once more at the end of the history; a panel of probe lines (every registered and deleted pattern, thirteen built-in sentences, every pair of family items, cross-family lines) evaluates identically on the long-lived calculator and on a fresh one on which only the surviving registrations were replayed, once in their order and once families first; non-trivial = a deletion followed by a probe of the deleted rule's pattern, two rules of equal name, or a rejected duplicate followed by a conversion");
+    ctx.rule("call histories of 1-14 operations on one calculator: add_rule(en|tr|unknown language, 1-3 patterns of fresh keywords - or no keyword at all for rules that always decline, or an operator word of the rule's own language (times/minus, kere/eksi) - and typed fields {NUMBER:n} {PERCENT:n} {MONEY:n} {TEXT:n} {NUMBER:k} or a quantity of a user family {DYNAMIC_TYPE:n[:family]} (the rule registered before the family exists or after its items), behaviour computed from the NAMED fields: decline always / decline when n is odd / Number(c+2n+3k) / Money / Percent / Duration), delete_rule (existing, never registered - also the function names of built-in rules such as convert_money -, already deleted, unknown language; names from a pool of four so that duplicates occur), add_dynamic_type, add_dynamic_type_item (fresh / duplicate index / unknown family, integer link factors, a quarter of the upgrade codes with a constant offset (`{value} / 4 + 32`), amounts incl. 0; families whose lowest index is 0, 1 or 3; units with one name or two names in either order, lines written with either), set_date_rule with the patterns a language already has (changes nothing), probe evaluations of registered and deleted patterns, family conversions; oracle: return values against a model (add_rule false iff unknown language, delete_rule true iff a live rule of that name exists, removing the first; add_dynamic_type false iff the name exists; add_dynamic_type_item false iff the family is unknown or the index taken); effect: a line matched by exactly one live rule evaluates to what its behaviour computes, a declining rule or no rule leaves the line as on a plain calculator; conversions = product of the declared link factors; and after every deletion and at the end: the built-in sentences (arithmetic, money, percent, units, dates, durations incl. several parts and 'as', zones, bases) evaluate as on a plain calculator unless an operator-word rule is live, and every live pattern is probed for its effect once more at the end of the history; a panel of probe lines (every registered and deleted pattern, thirteen built-in sentences, every pair of family items, cross-family lines) evaluates identically on the long-lived calculator and on a fresh one on which only the surviving registrations were replayed, once in their order and once families first; non-trivial = a deletion followed by a probe of the deleted rule's pattern, two rules of equal name, or a rejected duplicate followed by a conversion");
     ctx.assume("patterns consist of a fresh keyword plus typed fields (>= 2 tokens, the result cannot match again); unit items have fresh names, contiguous indices are needed for a conversion to be asserted");
     ctx.run_table(&Registry, "regressions", regressions(), false);
     let max = match ctx.tier {
